@@ -105,7 +105,7 @@ Proof.
   - rewrite <- fold_land_all. cbn [And_m fold_left]. apply Buf_char.
   - rewrite <- fold_land_all. unfold And_m. cbn [fold_left].
     rewrite (And2_char w a b).
-    change (fun acc x => And2_m w acc x) with (fun acc x => trunc w (Z.land acc x)).
+    rewrite (fold_left_ext (fun acc x => And2_m w acc x) (fun acc x => trunc w (Z.land acc x))) by (intros; apply And2_char).
     apply ladder_fold; intros; apply trunc_land_l; lia.
 Qed.
 Lemma And_correct w ins : 0 <= w -> ins <> [] -> And_m w ins = and_spec w ins.
@@ -117,7 +117,7 @@ Proof.
   - rewrite <- fold_lor_all. cbn [Or_m fold_left]. apply Buf_char.
   - rewrite <- fold_lor_all. unfold Or_m. cbn [fold_left].
     rewrite (Or2_char w a b).
-    change (fun acc x => Or2_m w acc x) with (fun acc x => trunc w (Z.lor acc x)).
+    rewrite (fold_left_ext (fun acc x => Or2_m w acc x) (fun acc x => trunc w (Z.lor acc x))) by (intros; apply Or2_char).
     apply ladder_fold; intros; apply trunc_lor_l; lia.
 Qed.
 Lemma Or_correct w ins : 0 <= w -> ins <> [] -> Or_m w ins = or_spec w ins.
@@ -159,10 +159,9 @@ Proof. intros. rewrite Xor_char by auto. apply trunc_mod; lia. Qed.
 (* ------------------------------------------------------------------ bit split, bit, range, repeat, enable *)
 Lemma BitsLSBF_correct wa a : 0 <= wa -> BitsLSBF_m wa a = bits_lsbf_spec wa a.
 Proof.
-  intros Hwa. unfold BitsLSBF_m, BitsLSBF_propagate, bits_lsbf_spec. cbv zeta.
+  intros Hwa. unfold BitsLSBF_m, bits_lsbf_spec. rewrite BitsLSBF_char.
   apply map_ext_in. intros i Hi. apply seqZ_in in Hi.
-  rewrite getZ_ones1 by lia. change (Wire_put 1 ?v) with (trunc 1 v).
-  change (Z.land (py_shr a i) 1) with (bitZ a i). rewrite bitZ_bit by lia.
+  rewrite getZ_ones1 by lia. rewrite bitZ_bit by lia.
   apply fits_trunc; [lia | apply is_bit_fits1, bit_is_bit].
 Qed.
 
@@ -181,7 +180,7 @@ Qed.
 Lemma BitsMSBF_correct wa a : 0 <= wa -> BitsMSBF_m wa a = bits_msbf_spec wa a.
 Proof.
   intros Hwa. unfold BitsMSBF_m, bits_msbf_spec.
-  change (BitsMSBF_propagate wa (ones1 wa) a) with (BitsLSBF_propagate wa (ones1 wa) a).
+  rewrite BitsMSBF_char, <- BitsLSBF_char.
   fold (BitsLSBF_m wa a). rewrite BitsLSBF_correct by lia. unfold bits_lsbf_spec. apply rev_seqZ_map; lia.
 Qed.
 
